@@ -77,6 +77,12 @@ def run(ctx):
     r1(ctx, g)
     r2(ctx)
     r3(ctx, g)
+    # builder == parser: a builder-made step carries its argument iff one was given (C13.R8), and every alias of the
+    # grammar stands for one keyword (C10.R1) - otherwise a parsed option is reported under another option's name
+    from rules import c10, c13
+
+    ctx.import_obligations("R4", c13.r8)
+    ctx.import_obligations("R5", c10.r1, g)
 
 
 def r1(ctx, g):
